@@ -6,7 +6,7 @@ from engine import graph, tlc
 
 SPEC = "OrmSession"
 ALL_ACTS = ["SetV", "SetPk", "Sp", "Expunge", "Expire", "Refresh", "Get", "Close", "MakeTransient", "Fail", "Misuse"]
-DEV_ALL = ["a", "b", "c", "d", "e", "f1", "f2", "f3", "g", "h", "eoc", "ksw", "kswx", "kswmerge"]
+DEV_ALL = ["a", "b", "c", "d", "e", "f1", "f2", "g", "h", "gsw", "eoc", "ksw", "kswx", "kswmerge"]
 
 
 def q(s):
@@ -34,3 +34,71 @@ def trace_actions(stdout):
         if a:
             out.append("%s(%s)->%s" % (a.group(1), g.group(1).replace('"', "") if g else "", r.group(1) if r else "?"))
     return out[1:]
+
+
+# ---------------------------------------------------------------------------------------------- deviation probes
+def probe_deviations(workdir):
+    """Which of the named deviations (OrmSession.tla constant Dev) does the Session of the tree under test show?
+    Each probe is the shortest history that distinguishes the deviating behaviour from the documented one; the spec is
+    then run with exactly this set, so the conformance replay stays strict in both directions."""
+    from checks.ormsession_driver import Real
+    r = Real(os.path.join(workdir, "probe"), "probe")
+    dev = set()
+
+    def run(script, eoc=True, pks=None):
+        r.reset(pks or {"o1": 1, "o2": 2}, expire_on_commit=eoc)
+        rets = []
+        for a, arg in script:
+            rets.append(r.do(a, arg))
+        return rets, r.observe()
+
+    def evs(o):
+        return {k[0]: v for k, v in o["ev"].items()}
+
+    try:
+        _, o = run([("Add", "o1"), ("Flush", None), ("Delete", "o1"), ("Flush", None), ("Rollback", None), ("Add", "o1"), ("Flush", None)])
+        if o["o"]["o1"]["life"] == "deleted":
+            dev.add("a")
+        _, o = run([("Add", "o1"), ("Commit", None), ("Delete", "o1"), ("Flush", None), ("Close", None)])
+        if o["o"]["o1"]["life"] == "deleted":
+            dev.add("b")
+        rets, o = run([("Add", "o1"), ("Flush", None), ("Delete", "o1"), ("Flush", None), ("Delete", "o1")])
+        if rets[-1] == "ok" and o["imap"].get(1) == "o1":
+            dev.add("c")
+        _, o = run([("Add", "o1"), ("Commit", None), ("Delete", "o1"), ("Rollback", None)])
+        if evs(o).get("deleted_to_persistent"):
+            dev.add("d")
+        _, o = run([("Add", "o1"), ("Commit", None), ("Delete", "o1"), ("Get", 1)])
+        if evs(o).get("persistent_to_deleted", 0) > 1:
+            dev.add("e")
+        _, o = run([("Add", "o1"), ("Flush", None), ("Delete", "o1"), ("Flush", None), ("Rollback", None)])
+        if evs(o).get("deleted_to_detached") and o["o"]["o1"]["life"] == "transient":
+            dev.add("f1")
+        _, o = run([("Add", "o1"), ("Flush", None), ("Expunge", "o1"), ("Rollback", None)])
+        if evs(o).get("persistent_to_transient"):
+            dev.add("f2")
+        _, o = run([("Add", "o1"), ("Commit", None), ("Delete", "o1"), ("BeginNested", None), ("Expunge", "o1"), ("Commit", None)])
+        if evs(o).get("deleted_to_detached"):
+            dev.add("g")
+        _, o = run([("Add", "o1"), ("Flush", None), ("MakeTransient", "o1"), ("Rollback", None)])
+        if evs(o).get("pending_to_transient"):
+            dev.add("h")
+        rets, o = run([("Add", "o1"), ("SetPk", ("o1", 2)), ("Commit", None), ("Delete", "o1"), ("Add", "o2"), ("Get", 2)])
+        if rets[-1] == "obj:o1":
+            dev.add("gsw")
+        _, o = run([("Add", "o1"), ("Commit", None), ("Delete", "o1"), ("Commit", None)], eoc=False)
+        if o["o"]["o1"]["life"] == "deleted":
+            dev.add("eoc")
+        _, o = run([("Add", "o1"), ("Flush", None), ("SetPk", ("o1", 2)), ("Flush", None), ("Rollback", None)])
+        if o["o"]["o1"]["life"] == "detached":
+            dev.add("ksw")
+        _, o = run([("Add", "o1"), ("BeginNested", None), ("SetPk", ("o1", 2)), ("Flush", None), ("Expunge", "o1"), ("SpRollback", None)])
+        if o["imap"].get(1) == "o1":
+            dev.add("kswx")
+        _, o = run([("Add", "o1"), ("Commit", None), ("SetPk", ("o1", 2)), ("Flush", None), ("BeginNested", None), ("SetPk", ("o1", 1)),
+                    ("Flush", None), ("SpCommit", None), ("Rollback", None)])
+        if o["o"]["o1"]["key"] == 2:
+            dev.add("kswmerge")
+    finally:
+        r.close()
+    return dev
